@@ -578,14 +578,17 @@ Proof.
       [subst b0; projs; lia | subst b0; projs; lia |].
     set (b1 := buf_grow_for_read b0 (h_total h - off)) in *. clearbody b1.
     subst b0. projs_all.
-    destruct (SCread s1 id A off (lenN (b_data b1)) HC1) as (s2 & r & ER & HC2 & HR);
-      [lia | pose proof SBM_pos; lia |].
+    set (limit := N.min (h_total h - off) (lenN (b_data b1))).
+    destruct (SCread s1 id A off limit HC1) as (s2 & r & ER & HC2 & HR);
+      [lia | subst limit; pose proof SBM_pos; lia |].
     rewrite Hid, ER.
+    replace (N.min limit (lenN A - off)) with (N.min (lenN (b_data b1)) (lenN A - off)) in HR
+      by (subst limit; lia).
     destruct HR as [-> | (k & ->)].
     + set (got := takeN (N.min (lenN (b_data b1)) (lenN A - off)) (dropN off A)).
       assert (HG : lenN got = N.min (lenN (b_data b1)) (lenN A - off))
         by (subst got; rewrite lenN_takeN, lenN_dropN; lia).
-      destruct (lenN (b_data b1) <? lenN got) eqn:E3; [lia|].
+      destruct (limit <? lenN got) eqn:E3; [subst limit; lia|].
       cbv beta iota. projs. split; [reflexivity|].
       exists A. split; [exact HC2|]. rewrite G3. split.
       * apply HInv_clean; rewrite ?lenN_app, ?lenN_dropN; try (pose proof SBM_pos; lia).
